@@ -34,6 +34,7 @@ func main() {
 	_ = replay
 	out, closeFn := NewOut(*outp, fmt.Sprintf("%s-s%d-%d", prop, *seed, *shard))
 	defer closeFn()
+	startMemWatchdog(2500 << 20)
 	r := NewRng(*seed*1000003 + uint64(*shard)*7919)
 	g(out, r, *tier, *n, *shard)
 }
